@@ -97,10 +97,18 @@ def fault_jobs(tier):
                 return dict(args=(a, b) if side == 0 else (b, a))
             js.append(fault_job('%s[time > 30000 in %s]' % (modname, 'reference' if side == 0 else 'estimate'), b_big, lambda inp, fn=fn: fn(*inp['args']), [modname, 'util.validate_events']))
 
-        def b_2d(ctx):
-            a = C.events(ctx, 'a', 4).reshape(2, 2)
-            return dict(args=(a, C.events(ctx, 'b', 2)))
-        js.append(fault_job('%s[2-d reference]' % modname, b_2d, lambda inp, fn=fn: fn(*inp['args']), [modname, 'util.validate_events']))
+        for side in (0, 1):
+            def b_2d(ctx, side=side):
+                a = C.events(ctx, 'a', 4).reshape(2, 2)
+                b = C.events(ctx, 'b', 2)
+                return dict(args=(a, b) if side == 0 else (b, a))
+            js.append(fault_job('%s[2-d %s]' % (modname, 'reference' if side == 0 else 'estimate'), b_2d, lambda inp, fn=fn: fn(*inp['args']), [modname, 'util.validate_events']))
+
+            def b_col(ctx, side=side):
+                a = C.events(ctx, 'a', 2).reshape(2, 1)
+                b = C.events(ctx, 'b', 2)
+                return dict(args=(a, b) if side == 0 else (b, a))
+            js.append(fault_job('%s[(n,1) column as %s]' % (modname, 'reference' if side == 0 else 'estimate'), b_col, lambda inp, fn=fn: fn(*inp['args']), [modname, 'util.validate_events']))
 
     # --- intervals: negative / non-positive duration / not n-by-2
     def seg_fault(kind):
@@ -120,11 +128,14 @@ def fault_jobs(tier):
         return b
     for kind in ('negative', 'non-positive duration'):
         for nm, fn in (('segment.detection', lambda bad, good: SEG.detection(bad, good)), ('segment.detection(est)', lambda bad, good: SEG.detection(good, bad)),
-                       ('segment.deviation', lambda bad, good: SEG.deviation(bad, good)),
-                       ('segment.pairwise', lambda bad, good: SEG.pairwise(bad, ['a'], good, ['a'])),
+                       ('segment.deviation', lambda bad, good: SEG.deviation(bad, good)), ('segment.deviation(est)', lambda bad, good: SEG.deviation(good, bad)),
+                       ('segment.pairwise', lambda bad, good: SEG.pairwise(bad, ['a'], good, ['a'])), ('segment.pairwise(est)', lambda bad, good: SEG.pairwise(good, ['a'], bad, ['a'])),
                        ('chord.overseg', lambda bad, good: CHORD.overseg(bad, good)), ('chord.underseg', lambda bad, good: CHORD.underseg(bad, good)),
+                       ('chord.overseg(est)', lambda bad, good: CHORD.overseg(good, bad)), ('chord.underseg(est)', lambda bad, good: CHORD.underseg(good, bad)),
                        ('transcription.onset_precision_recall_f1', lambda bad, good: TR.onset_precision_recall_f1(bad, good)),
+                       ('transcription.onset_precision_recall_f1(est)', lambda bad, good: TR.onset_precision_recall_f1(good, bad)),
                        ('transcription.precision_recall_f1_overlap', lambda bad, good: TR.precision_recall_f1_overlap(bad, np.array([440.0]), good, np.array([440.0]))),
+                       ('transcription.precision_recall_f1_overlap(est)', lambda bad, good: TR.precision_recall_f1_overlap(good, np.array([440.0]), bad, np.array([440.0]))),
                        ('util.intervals_to_durations', lambda bad, good: U.intervals_to_durations(bad))):
             js.append(fault_job('%s[%s interval]' % (nm, kind), seg_fault(kind), lambda inp, fn=fn: fn(inp['bad'], inp['good']), [nm.split('(')[0], 'util.validate_intervals']))
 
@@ -277,12 +288,23 @@ def fault_jobs(tier):
             if kind == 'decreasing estimate':
                 e = C.events(ctx, 'q', 2, sort=False)
                 ctx.assume(e[1] < e[0])
+            if kind == 'negative estimate':
+                e = C.events(ctx, 'q', 2, lo=-10)
+                ctx.assume(e[0] < 0)
+            if kind == 'decreasing reference':
+                r = C.events(ctx, 'q', 2, sort=False)
+                ctx.assume(r[1] < r[0])
+            if kind == 'two-dimensional reference (n,1)':
+                r = r.reshape(-1, 1)
+            if kind == 'two-dimensional estimate (n,1)':
+                e = e.reshape(-1, 1)
             if kind == 'empty reference':
                 r = C.events(ctx, 'q', 0)
                 e = C.events(ctx, 'p', 0)
             return dict(args=(r, e))
         return b
-    for kind in ('unequal lengths', 'negative reference', 'decreasing estimate', 'empty reference'):
+    for kind in ('unequal lengths', 'negative reference', 'negative estimate', 'decreasing estimate', 'decreasing reference',
+                 'two-dimensional reference (n,1)', 'two-dimensional estimate (n,1)', 'empty reference'):
         for nm, fn in (('absolute_error', ALIGN.absolute_error), ('percentage_correct', ALIGN.percentage_correct),
                        ('percentage_correct_segments', ALIGN.percentage_correct_segments)):
             js.append(fault_job('alignment.%s[%s]' % (nm, kind), b_al(kind), lambda inp, fn=fn: fn(*inp['args']), ['alignment.' + nm, 'alignment.validate']))
